@@ -69,7 +69,7 @@ def build(rng, tmp, secure_method, force=False):
     s.limits = DictField(StringField(), IntField(), default=lambda: {"x": 1})
     s.blob = BytesField(default=bytes(rng.getrandbits(8) for _ in range(5)))
     s.db.host = StringField(default="localhost")
-    s.db.secret = SecureField(method=secure_method, default="s3cr3t-%d" % rng.randint(0, 9999))
+    s.db.secret = SecureField(method=secure_method, default=("s3cr3t-%d" % rng.randint(0, 9999)) + rng.choice(["", "-" + "x" * 30, "-пароль-секрет-ключ-длинный"]))
     # a list of configurations holding secrets, below a sub-configuration (their key file is the root's)
     acct = Schema()
     acct.user = StringField()
@@ -160,6 +160,41 @@ def run(ctx):
                             dict(case, error=str(e)[:200]))
             reqs.append({"cmd": "save.exec", "content": data.hex()})
             pend.append((case, {"written": data.hex()}, False))
+            # ---- the same configuration object saved again, after the world around it has changed: every successful save stands on its own
+            again = ["key-rotated", "destination-deleted", "destination-overwritten"][it % 3]
+            try:
+                kp_now = kp
+                if again == "key-rotated":
+                    kp_now = os.path.join(tmp, "key2-%d-%s" % (it, fmt))
+                    with open(kp_now, "wb") as fh:
+                        fh.write(bytes(rng.getrandbits(8) for _ in range(32)))
+                    if it % 2:
+                        cfg._key_filename = kp_now                      # the configuration is pointed at another key file ...
+                    else:
+                        with open(kp_now, "rb") as src, open(kp, "wb") as dst:
+                            dst.write(src.read())                       # ... or the key file's content is replaced in place
+                        kp_now = kp
+                elif again == "destination-deleted":
+                    os.unlink(dest)
+                else:
+                    with open(dest, "wb") as fh:
+                        fh.write(b"someone else wrote this")
+                cfg.save(dest, fmt)
+                saved_again = True
+            except Exception:  # noqa
+                saved_again = False
+            if saved_again:
+                res.case(("again", fmt, it), kind="again:" + again)
+                case2 = dict(case, again=again)
+                cfg3 = schema()
+                cfg3._key_filename = kp_now
+                try:
+                    cfg3.load(dest, fmt)
+                    if asdict(cfg3) != asdict(cfg):
+                        res.violate("C19:reload-differs:saved-again", "a file written by a second successful save of the same configuration does not load back into an equal configuration", case2)
+                except Exception as e:  # noqa
+                    res.violate("C19:reload-fails:saved-again", "a file written by a second successful save of the same configuration fails to load back (%s): %s"
+                                % (again, type(e).__name__), dict(case2, error=str(e)[:200]))
             # ---- faults, each against the destination holding the previous save
             faults = ["to_basic", "keyfile", "encrypt", "format-name", "formatter", "expanduser", "open"]
             if fmt == "bson":
